@@ -301,6 +301,12 @@ fn run_one(out: &mut Out, case: u64, prog: &Value, env: &Value, cfg: &Cfg, line_
             Ok(x) => x,
             Err(_) => return json!({"skip": "could not build the input under the allocator pre-load"}),
         };
+        if cfg2.history > 0 && cfg2.history % 2 == 1 {
+            // an earlier run of the SAME program in this allocator (it may fail, e.g. while validating a point,
+            // and it leaves its allocations and any cached validation behind)
+            let d = ChiaDialect::new(flags(cfg2.flags));
+            let _ = run_program(&mut a, &d, p, e, cfg2.budget);
+        }
         let al = json!({"atoms": a.atom_count(), "pairs": a.pair_count(), "heap": a.heap_size(),
                         "limit": cfg2.heap_limit.map(|h| h as i64).unwrap_or(-1)});
         let evs = ev2.clone();
@@ -687,7 +693,11 @@ impl PG<'_> {
             }
         };
         let result = |s: &mut Self| -> Value {
-            match s.r.below(9) {
+            match s.r.below(12) {
+                // heap-backed atoms whose CONTENT is a small integer (only concat of >= 2 terms / substr of fresh bytes make them)
+                9 => list_json(&[atom_json(&[14]), q(atom_json(&[0x12])), q(atom_json(&[s.r.below(256) as u8]))]),
+                10 => list_json(&[atom_json(&[12]), list_json(&[atom_json(&[14]), path_a.clone(), q(atom_json(&[0x05, 0x7f]))]), q(int_atom(43)), q(int_atom(44 + s.r.below(2) as i64))]),
+                11 => list_json(&[atom_json(&[14]), q(atom_json(&[0x03])), q(atom_json(&[0xff, 0xff])), q(atom_json(&[0xff]))]),
                 0 => list_json(&[atom_json(&[12]), path_a.clone(), q(int_atom(s.r.range(0, 20))), q(int_atom(s.r.range(20, 43)))]), // substr of old bytes
                 1 => list_json(&[atom_json(&[12]), path_b.clone(), q(int_atom(s.r.range(0, 4)))]),
                 2 => path_a.clone(),                                                     // existed before
@@ -1267,6 +1277,8 @@ fn main() {
                     "C05" => pg.fast_expr(depth),
                     "C04" if pg.r.chance(1, 2) => pg.gc_expr(1),
                     "C07" if pg.r.chance(1, 2) => pg.restrict_expr(depth),
+                    "C03" if pg.r.chance(1, 4) => pg.restrict_expr(depth),
+                    "C03" if pg.r.chance(1, 6) => pg.crypto_expr(),
                     "C13" if pg.r.chance(1, 2) => pg.alloc_expr(),
                     "C08" if pg.r.chance(1, 4) && !secp.is_empty() => {
                         // the 4-byte secp opcodes and their aliases (same 3-byte multiplier, other last byte), on a valid triple
